@@ -45,6 +45,9 @@ def base_rules(rng):
         rules[1]["rspfile"] = "${out}.rsp"; rules[1]["rspfile_content"] = "${in}"
     if pick(rng, 0.1):
         rules[0]["description"] = "CC ${out}"
+    if pick(rng, 0.12):
+        # a response file whose content mentions laze variables (written as is: rules expand cmd and depfile only)
+        rules[0]["rspfile"] = "${out}.rsp"; rules[0]["rspfile_content"] = "${CFLAGS} ${X} ${in}"
     return rules
 
 DL_RULES = [{"name": "GIT_DOWNLOAD", "cmd": "D=$$(dirname ${out}); git clone ${url} -b ${commit} $$D && touch ${out}"},
@@ -71,6 +74,9 @@ def dep_list(rng, names, nmax=3, p_opt=0.4, p_if=0.2):
 def rand_task(rng, names):
     t = {"cmd": [rng.choice(["echo ${app} ${builder}", "run ${out}", "echo \\${lit} $$X", "flash ${X}"])]}
     if pick(rng, 0.3): t["required_vars"] = [rng.choice(["X", "CFLAGS", "NOPE"])]
+    if pick(rng, 0.2):
+        # an expression that is only valid where the requirement holds
+        t["cmd"] = ["echo $(${PORT} + 1)"]; t["required_vars"] = ["PORT"]
     if pick(rng, 0.3): t["required_modules"] = [rng.choice(names)]
     if pick(rng, 0.2): t["build"] = False
     if pick(rng, 0.2): t["export"] = ["X"]
@@ -90,7 +96,7 @@ def gen_module(rng, n, names, ctx_choice, penv, pc, pu, focus):
     if pick(rng, pc): m["conflicts"] = [rng.choice(FEATURES if pick(rng, 0.6) else names)]
     pbuild = 0.35 if focus == "build" else 0.08
     if pick(rng, pbuild):
-        m["build"] = {"cmd": ["gen ${X} > ${out}"] + (["touch ${relpath}/stamp"] if pick(rng, 0.3) else []),
+        m["build"] = {"cmd": [rng.choice(["gen ${X} > ${out}", "gen ${X} > ${out}", "gen \\${X} ${X} \\${CFLAGS} > ${out}"])] + (["touch ${relpath}/stamp"] if pick(rng, 0.3) else []),
                       **({"out": [(rng.choice(["gen/${builder}/${app}/", "gen/${builder}/${app}/", ""])) + n + "_gen.h"] +
                                  ([n + "_gen2.h"] if pick(rng, 0.2) else [])} if pick(rng, 0.9) else {})}
         if pick(rng, 0.7): m["is_build_dep"] = True
@@ -103,7 +109,8 @@ def gen_module(rng, n, names, ctx_choice, penv, pc, pu, focus):
                 d = {}
                 for _k in range(rng.randint(2, 3) if MULTIKEY else 1):
                     g = rng.choice(names[:2] if pick(rng, 0.6) else names)
-                    d[g] = ["opt_%s_%s.c" % (n, g)]
+                    if CTXNAMES and pick(rng, 0.15): g = "context::" + rng.choice(CTXNAMES)     # a context module as the guard
+                    d[g] = ["opt_%s_%s.c" % (n, g.replace("::", "_"))]
                 srcs.append(d)
             if pick(rng, 0.1) and len(srcs) > 1 and isinstance(srcs[-1], dict):
                 srcs = [s for s in srcs if isinstance(s, dict)]            # a module with optional sources only
@@ -193,6 +200,7 @@ def gen_project(rng, size="small", features=None, focus=None):
         bd = {"name": "b%d" % i, "parent": rng.choice(["default"] + ctx_names)}
         e = rand_env(rng, 0.4)
         if e: bd["env"] = e
+        if pick(rng, 0.3): bd.setdefault("env", {})["PORT"] = str(8000 + i)
         if pick(rng, 0.25):
             bd["var_options"] = {rng.choice(["CFLAGS", "LIBS", "X"]): {k: v for k, v in
                                  (("joiner", ","), ("prefix", "-p"), ("suffix", ";"), ("start", "<"), ("end", ">")) if pick(rng, 0.5)}}
@@ -267,6 +275,8 @@ def gen_project(rng, size="small", features=None, focus=None):
             add_removals(rng, doc)
     else:
         buckets = {"root": ([], []), "doc2": ([], []), "sub": ([], []), "deep": ([], []), "inc": ([], [])}
+        with_import = pick(rng, 0.45)
+        if with_import: buckets["imp"] = ([], []); buckets["impsub"] = ([], [])
         keys = list(buckets)
         for m in modules: buckets[rng.choice(keys)][0].append(m)
         for a in apps: buckets[rng.choice(keys)][1].append(a)
@@ -291,6 +301,35 @@ def gen_project(rng, size="small", features=None, focus=None):
             sub["subdirs"] = ["deep"]
             files["sub/deep/laze.yml"] = [fill({}, "deep")]
         files["sub/laze.yml"] = [sub]
+        if pick(rng, 0.25):
+            # documents that declare nothing (an empty map) between the others: document numbers still count them
+            for fn in ("laze-project.yml", "sub/laze.yml"):
+                if pick(rng, 0.6): files[fn].insert(rng.randrange(len(files[fn]) + 1), {})
+        if with_import:
+            # a local import: the lazefile of the imported directory is the first of laze-lib.yml, laze.yml,
+            # laze-project.yml that exists; ${root} is the imported directory, unnamed modules are named
+            # relative to it
+            lazefiles = ["laze-lib.yml", "laze.yml", "laze-project.yml"]
+            k = rng.randrange(3)
+            imp = fill({}, "imp")
+            for m in (imp.get("modules") or []):
+                if pick(rng, 0.5): m.setdefault("env", {}).setdefault("export", {})["CFLAGS"] = ["-I${root}/include"]
+            if buckets["impsub"][0] or buckets["impsub"][1] or pick(rng, 0.5):
+                imp["subdirs"] = ["more"]
+                more = fill({}, "impsub")
+                if pick(rng, 0.6):
+                    more.setdefault("modules", []).append({"sources": ["more.c"], "env": {"global": {"LIBS": ["${root}/more.a"]}}})   # named "more"
+                files["vendor/lib/more/laze.yml"] = [more]
+            files["vendor/lib/" + lazefiles[k]] = [imp]
+            if k < 2 and pick(rng, 0.3):
+                files["vendor/lib/" + lazefiles[rng.randrange(k + 1, 3)]] = [{"modules": [{"name": "ignored_lazefile", "sources": ["never.c"]}]}]
+            entry = {"path": "vendor/lib"}
+            if pick(rng, 0.3): entry["name"] = "lib"
+            tgt = rng.choice([doc, sub])
+            tgt["imports"] = [entry]
+            if pick(rng, 0.05): doc["subdirs"] = doc["subdirs"] + ["vendor/lib"] if k == 1 else doc["subdirs"]
+            if pick(rng, 0.4) and apps:
+                rng.choice(apps).setdefault("selects", []).append(("?" if pick(rng, 0.5) else "") + "more")
         if pick(rng, 0.15) and not buckets["sub"][1]:
             sub["apps"] = None        # `apps:` with a null value: one app named after the directory
     cli = {}
@@ -302,5 +341,6 @@ def gen_project(rng, size="small", features=None, focus=None):
     if layout and pick(rng, 0.3):
         # local mode: started from a directory of the project, only the apps defined there
         import os
-        cli["local"] = rng.choice(sorted({os.path.dirname(f) or "." for f in files}))
+        nested_root = "vendor/lib/laze-project.yml" in files      # laze would take vendor/lib for the project root
+        cli["local"] = rng.choice(sorted({os.path.dirname(f) or "." for f in files if not (nested_root and f.startswith("vendor/"))}))
     return files, cli
